@@ -1,4 +1,72 @@
 package main
 
+import (
+	"context"
+	"runtime"
+	"time"
+
+	"github.com/fullstorydev/grpchan/grpchantesting"
+	"google.golang.org/grpc"
+)
+
 func extraC03(r *Run) {}
-func extraC04(r *Run) {}
+
+// recvOnly's single use of the stream is the blocking RecvMsg itself: while it blocks, nothing else
+// in the program refers to the stream value the channel handed out.
+func recvOnly(cs grpc.ClientStream, out chan<- string) {
+	var m Msg
+	err := cs.RecvMsg(&m)
+	if err != nil {
+		out <- resOf(err)
+		return
+	}
+	out <- "msg"
+}
+
+// extraC04: a call whose context is NOT done must never be reported as Canceled. The HTTP channel
+// attaches a cancelling finalizer to the stream object it returns; a garbage collection during a
+// blocking RecvMsg that is the caller's last use of the stream must not cancel the call.
+func extraC04(r *Run) {
+	for _, tp := range bothTransports() {
+		for i := 0; i < r.Budget(3, 20); i++ {
+			release := make(chan struct{})
+			svr := &scriptServer{}
+			svr.sstream = func(req *Msg, s grpchantesting.TestService_ServerStreamServer) error {
+				<-release
+				return s.Send(&Msg{Count: 9})
+			}
+			ch, stop := tp.mk(svr)
+			out := make(chan string, 1)
+			func() {
+				cs, err := ch.NewStream(context.Background(), descSStream, mSStream)
+				if err != nil {
+					out <- resOf(err)
+					return
+				}
+				cs.SendMsg(&Msg{})
+				cs.CloseSend()
+				go recvOnly(cs, out)
+			}()
+			time.Sleep(5 * time.Millisecond)
+			for k := 0; k < 3; k++ {
+				runtime.GC()
+				time.Sleep(2 * time.Millisecond)
+			}
+			close(release)
+			res := ""
+			select {
+			case res = <-out:
+			case <-time.After(3 * time.Second):
+				res = "blocked"
+			}
+			stop()
+			r.Eval(sprintf("gc-during-recv %s %d", tp.name, i), true)
+			r.Count("gc-during-recv:" + tp.name)
+			if res != "msg" {
+				r.Violate(tp.name+"/stream/spurious-cancel-by-finalizer", "a call whose context is not done is never reported as Canceled: the caller gets the real result (also C02: the outcome equals the handler's)",
+					sprintf("a garbage collection during a blocking RecvMsg (the caller's last use of the stream) made it return %s instead of the message the handler sent", res),
+					map[string]interface{}{"transport": tp.name, "kind": "sstream", "script": "NewStream; SendMsg; CloseSend; go RecvMsg (blocking, last use); runtime.GC() x3; handler sends"}, res)
+			}
+		}
+	}
+}
